@@ -220,6 +220,12 @@ func allChecks() []CheckSpec {
 				{Fn: "verifC12Sequence", Lemma: "sequential operation sequences on the real UDPMuxDefault (GetConn, write through a handle, inbound datagram through the real connWorker, RemoveConnByUfrag, handle Close, mux Close) against a reference routing table (owner by canonical address = last writer, connections by ufrag): every inbound datagram grows exactly the reference's destination queue by one byte-identical packet with the true source, no other queue changes; first-contact STUN is routed by the USERNAME prefix only to that ufrag's connection of the source's family; per-connection FIFO; address map and per-connection lists agree with canonical keys; removed/closed connections receive nothing and own no binding",
 					Bounds: "3 (quick) / 5 (thorough) operations over 2 ufrags, 4 addresses (two IPv4, the IPv4-mapped form of the first, one IPv6), datagram = 3 arbitrary bytes or STUN with USERNAME of a known or arbitrary 2-byte ufrag, IPv4 mux socket", MustReach: []string{"written", "delivered", "dropped", "removed", "last-handle-closed", "mux-closed", "done"},
 					Cfg: func(c *HarnessCfg, tier int) { c.GoPolicy = "queue" }},
+				{Fn: "verifC12LastWriter", Lemma: "last writer wins for every write history: two connections write to two remote addresses in any order; after every write the address table points at the writer; afterwards a datagram from each address is delivered to the connection that wrote to it last and to no other (dropped if nobody wrote); removing the last writer's ufrag unbinds the address and nothing falls back to the earlier writer",
+					Bounds: "2 ufrags, 2 remote addresses, every sequence of 3 (thorough 4) writes by any handle to any address, symbolic inbound payloads", MustReach: []string{"never-written", "taken-over-or-kept", "done"},
+					Cfg: func(c *HarnessCfg, tier int) { c.GoPolicy = "queue" }},
+				{Fn: "verifC12ShortBuffer", Lemma: "per-connection FIFO with readers whose buffer may be too small: three datagrams (3..4 bytes, symbolic content) arrive; reads with an 8-byte or a 2-byte buffer in any order: only a too-small buffer fails a read (short buffer, nothing returned), every delivered datagram is complete, unmodified and carries the peer's address, none is delivered twice, and delivered datagrams keep their arrival order (one that did not fit never comes back later)",
+					Bounds: "1 connection, 3 datagrams, 3 (thorough 4) reads, buffer sizes {2, 8}", MustReach: []string{"short-buffer", "delivered", "done"},
+					Cfg: func(c *HarnessCfg, tier int) { c.GoPolicy = "queue" }},
 				{Fn: "verifC12DualStack", Lemma: "a mux on the unspecified address serving one ufrag on both IP families: each family's first-contact request reaches its own connection; after RemoveConnByUfrag, after the handles were closed, or after mux Close the ufrag is gone from both family tables, no address binding points at either connection, neither receives anything (from a bound address or by ufrag, either family) and GetConn returns a fresh connection",
 					Bounds: "one ufrag, one IPv4 and one IPv6 local address, optional write to one peer per family before the removal, 3 removal forms x 4 follow-up datagrams with symbolic payload/transaction id", MustReach: []string{"removed", "mux-closed", "handles-closed", "done"},
 					Cfg: func(c *HarnessCfg, tier int) { c.GoPolicy = "queue" }},
@@ -354,6 +360,9 @@ func allChecks() []CheckSpec {
 					Bounds: "timeouts 0..1 h, silence 1 ms..3 h (symbolic), current state Connected/Disconnected, 1+1 candidates", MustReach: []string{"failed", "done"}},
 				{Fn: "verifC04InitialDeadline", Lemma: "initial checking deadline = 0 iff failed timeout 0, else (disconnected timeout, or the 5 s full-agent default for a lite agent without explicit timeout) + failed timeout",
 					Bounds: "all durations in [0, 2^62), lite/explicit flags", MustReach: []string{"done"}},
+				{Fn: "verifC04DeadlineRearm", Lemma: "the initial checking deadline counts from entering Checking, and again from the Restart that re-enters it: through the real connectivityChecks loop (its closure state included) an agent without a pair fails once disconnected+failed has elapsed, Restart returns it to Checking, the next ticks leave it Checking until a full deadline has elapsed once more, then it fails again",
+					Bounds: "deadline 100 ms + 100 ms, clock advanced by 300 / 120 / 150 ms between harness-driven ticks (engine: symbolic clock jumps; native replay: real sleeps), one Restart", MustReach: []string{"failed-on-deadline", "done"},
+					Cfg: func(c *HarnessCfg, tier int) { c.GoPolicy = "queue" }},
 				{Fn: "verifC04Tick", Lemma: "1..2 check ticks through the real connectivityChecks loop: every notified transition is an edge of the lifecycle graph without repeats, Connected/Disconnected only with a selected pair, a tick while Failed changes nothing, Checking->Failed only with a deadline, Failed releases everything",
 					Bounds: "start states Checking/Connected/Disconnected/Failed, timeouts {default, 0, 1 ns}, silence 1 ms..1 min, 1..2 ticks, both roles", MustReach: []string{"failed-stays", "checking->failed", "->failed", "done"}},
 				{Fn: "verifC04Update", Lemma: "updateConnectionState: exactly one notification carrying the new state iff it changed; the Failed notification is enqueued after the release",
